@@ -70,7 +70,7 @@ def run(tier: str) -> int:
              [["RandomUniformSampler", 3], ["BestBatchSampler", 2], ["ParticleSwarmSampler", 2]],
              [["RSequenceSampler", 2], ["HaltonSampler", 1], ["BestBatchSampler", 2]]]
     for i in range(4 if tier == "quick" else 24):
-        cfg = twins.random_config(rng, rl=False)
+        cfg = twins.random_config(rng, rl=False, dims=(12 if i % 4 == 1 else None))      # (one run in four on more than ten parameters)
         cfg["lineup"] = [list(x) for x in cheap[i % len(cheap)]]
         d = len(cfg["prec"])
         cfg["prec"] = [rng.choice([1e-4, 1e-5]) for _ in range(d)]
